@@ -146,11 +146,27 @@ def outcome(fn, *args):
     except BaseException as e:  # noqa: BLE001
         if AFTER_CALL_HOOK is not None:
             AFTER_CALL_HOOK()
+        LAST_EXC[0] = e
         return ["exc", sig_exc(e)], None
     if AFTER_CALL_HOOK is not None:
         AFTER_CALL_HOOK()
     return ["ok", sig_value(r)], r
 
+
+def strip_payload(sig):
+    """Outcome signature without the structured attributes of exceptions (class, trail and tree shape stay).
+    Used for calls made after the client has overwritten the payload of an earlier exception: whether such a
+    payload is private to one exception object is not something a listed property fixes, what a later call
+    accepts, returns or raises is."""
+    if isinstance(sig, list):
+        return [strip_payload(x) for x in sig]
+    if isinstance(sig, dict):
+        return {k: strip_payload(v) for k, v in sig.items() if not ("exc" in sig and k == "attrs")}
+    return sig
+
+
+# the exception object of the most recent failed outcome() (the hostile client of C20 keeps and mutates it)
+LAST_EXC = [None]
 
 # set by histsim while an interrupt is armed: computing a signature calls adaptix code too (reprs of trail
 # elements, __eq__ of models); the fault belongs to the call under test, never to the harness
